@@ -34,6 +34,7 @@ pub use eval::{
     eval,
     eval_simple,
     eval_certain,
+    check_failed_constraint,
     eval_variable,
     eval_variable_simple,
     eval_variable_certain,
